@@ -3,6 +3,7 @@ import warnings
 
 from harness.core import Result  # noqa: F401
 
+COMPONENTS = ["partitioner"]  # model drivers this check needs (lake targets model_<c>)
 TRUSTED = [
     "Java murmur2 transcription (Afkak/Murmur.lean: murmur2Java), tested against the Java client's own UtilsTest vectors by `decide +kernel`",
     "model of sorted()/itertools.cycle as insertion sort / rotating list",
